@@ -1,9 +1,128 @@
-//! C11: not built yet.
-use crate::out::Out;
-use serde_json::Value;
+//! C11: lifting P-Code to the IR preserves behaviour.
+//! Generates P-Code blocks (pblockgen.rs), runs the REAL lifter
+//! (`pcode::Project::normalize` + `into_ir_project`, exactly what
+//! `utils::ghidra::parse_pcode_project_to_ir_project` does) on a project that contains the block,
+//! and records one case per block: register table, P-Code block (encoding of spec/Pcode.tla), the
+//! lifted IR block (encoding of spec/IR.tla), initial register files.  TLC runs both reference
+//! interpreters (spec/LiftMonitor.tla) and decides; nothing is decided here.
+use crate::out::{catch, Out};
+use crate::pblockgen::{self, Arch, BlockGen};
+use crate::rng::Rng;
+use crate::{irenc, penc};
+use cwe_checker_lib::pcode;
+use serde_json::{json, Value};
 
-pub fn gen(_out: &mut Out, _sub: &str) {}
+/// Run the real lifter on the extractor JSON; returns (IR block as JSON, panic message).
+pub fn lift(raw: &Value) -> (Value, String) {
+    let empty = json!({"tid": "", "addr": "", "defs": [], "jmps": [], "ind": []});
+    let project: pcode::Project = match serde_json::from_value(raw.clone()) {
+        Ok(p) => p,
+        Err(e) => return (empty, format!("deserialization of the extractor output failed: {}", e)),
+    };
+    let base = u64::from_str_radix(raw["program"]["term"]["image_base"].as_str().unwrap(), 16).unwrap();
+    let res = catch(move || {
+        let mut project = project;
+        let _logs = project.normalize();
+        project.into_ir_project(base)
+    });
+    match res {
+        Ok(ir) => {
+            let blk = ir.program.term.subs.values().next().and_then(|s| s.term.blocks.first());
+            match blk {
+                Some(b) => (irenc::blk(b), String::new()),
+                None => (empty, "the lifted project has no block".to_string()),
+            }
+        }
+        Err(msg) => (empty, format!("panic: {}", msg)),
+    }
+}
 
-pub fn replay(_run: &[Value], _sub: &str) -> Vec<Value> {
-    Vec::new()
+/// Feature tag (decides nothing; lets known_findings.json name one input class precisely): the base
+/// registers B for which the block contains the adjacent pair  `S = ...; B:k = CAST(S)`  where S is a
+/// named sub-register of B and B:k is a same-name SMALLER view of B (k < size of B).
+fn casts_to_smaller_view_of_base(raw: &Value) -> Vec<String> {
+    let table = raw["register_properties"].as_array().unwrap();
+    let entry = |name: &str| table.iter().find(|r| r["register"] == name);
+    let defs = raw["program"]["term"]["subs"][0]["term"]["blocks"][0]["term"]["defs"].as_array().unwrap();
+    let casts = ["INT_ZEXT", "INT_SEXT", "INT2FLOAT", "FLOAT2FLOAT", "TRUNC", "POPCOUNT", "LZCOUNT"];
+    let mut out = Vec::new();
+    for w in defs.windows(2) {
+        let (d1, d2) = (&w[0]["term"], &w[1]["term"]);
+        let (Some(s), Some(b)) = (d1["lhs"]["name"].as_str(), d2["lhs"]["name"].as_str()) else { continue };
+        let (Some(se), Some(be)) = (entry(s), entry(b)) else { continue };
+        if casts.contains(&d2["rhs"]["mnemonic"].as_str().unwrap_or(""))
+            && d2["rhs"]["input0"]["name"] == d1["lhs"]["name"]
+            && d2["rhs"]["input0"]["size"] == d1["lhs"]["size"]
+            && se["register"] != se["base_register"]
+            && se["base_register"] == be["register"]
+            && d2["lhs"]["size"].as_u64() < be["size"].as_u64()
+        {
+            out.push(b.to_string());
+        }
+    }
+    out
+}
+
+/// The case record of LiftMonitor.tla for the given input (raw extractor JSON + run parameters).
+pub fn exec(input: &Value) -> Value {
+    // `raw` travels as JSON text (it contains nulls, which the TLA+ side must not see)
+    let raw_value: Value = match &input["raw"] {
+        Value::String(s) => serde_json::from_str(s).expect("raw P-Code project"),
+        v => v.clone(),
+    };
+    let raw = &raw_value;
+    let (irblock, panic) = lift(raw);
+    let casts = casts_to_smaller_view_of_base(raw);
+    let has_cast = !casts.is_empty();
+    let table = &raw["register_properties"];
+    let spn = raw["stack_pointer_register"]["name"].as_str().unwrap();
+    let sps = raw["stack_pointer_register"]["size"].as_u64().unwrap();
+    json!({
+        "ev": "case", "idx": input["idx"], "arch": raw["cpu_architecture"], "feat": input["feat"],
+        "regtable": penc::regtable(table), "ptr": sps, "le": input["le"], "seed": input["seed"],
+        "sp": {"n": spn, "s": sps, "t": false}, "physregs": penc::base_registers(table),
+        "pblock": penc::blk(&raw["program"]["term"]["subs"][0]["term"]["blocks"][0]),
+        "irblock": irblock, "panic": panic,
+        "casts_to_smaller_view_of_base": casts, "has_cast_to_smaller_view_of_base": has_cast, "inits": input["inits"], "raw": serde_json::to_string(raw).unwrap(),
+    })
+}
+
+pub fn replay(run: &[Value], _sub: &str) -> Vec<Value> {
+    run.iter().filter(|e| e["ev"] == "case").map(exec).collect()
+}
+
+fn one_input(seed: u64, idx: u64, archs: &[Arch], ninits: usize) -> (Value, bool) {
+    let mut rng = Rng::new(seed ^ idx.wrapping_mul(0x9E37_79B9_7F4A_7C15) ^ 0xC11);
+    let arch = if rng.chance(1, 6) { &archs[1] } else { &archs[0] };
+    let blk = {
+        let g = BlockGen::new(&mut rng, arch);
+        g.block(6)
+    };
+    let raw = pblockgen::block_project(arch, &blk);
+    let feat: Vec<&str> = blk.feats.iter().cloned().collect();
+    let nontrivial = feat.iter().any(|f| f.starts_with("subreg_out") || f.starts_with("ram_") || *f == "sns_out" || *f == "load_subreg");
+    let inits = pblockgen::inits(&mut rng, arch, ninits);
+    (json!({"idx": idx, "raw": raw, "feat": feat, "le": rng.chance(3, 4), "seed": rng.below(65521), "inits": inits}), nontrivial)
+}
+
+pub fn gen(out: &mut Out, _sub: &str) {
+    let n = out.size(800, 12000);
+    let ninit = out.size(3, 4) as usize;
+    let archs = [pblockgen::arch64(), pblockgen::arch32()];
+    let mut counts = std::collections::BTreeMap::new();
+    let mut panics = 0u64;
+    for idx in 0..n {
+        let (input, nontrivial) = one_input(out.seed, idx, &archs, ninit);
+        for f in input["feat"].as_array().unwrap() {
+            *counts.entry(f.as_str().unwrap().to_string()).or_insert(0u64) += 1;
+        }
+        let ev = exec(&input);
+        if ev["panic"] != json!("") {
+            panics += 1;
+        }
+        out.emit(vec![ev], nontrivial);
+    }
+    out.extra.insert("feature_counts".to_string(), json!(counts));
+    out.extra.insert("lifter_panics".to_string(), json!(panics));
+    out.extra.insert("inits_per_case".to_string(), json!(ninit));
 }
